@@ -147,9 +147,9 @@ class State:
         self._wf_seen.add(key)
         b = z3.Select(base, ref)
         if rng == Val:
-            self.pc.append(z3.Implies(Val.is_R(b), z3.And(Val.r(b) >= 0, Val.r(b) < ALLOC0)))
+            self.pc.append(z3.Implies(z3.And(ref < ALLOC0, Val.is_R(b)), z3.And(Val.r(b) >= 0, Val.r(b) < ALLOC0)))
         elif rng == SeqV and BELOW0[0] is not None:
-            self.pc.append(BELOW0[0](b))
+            self.pc.append(z3.Implies(ref < ALLOC0, BELOW0[0](b)))
 
     def write(self, name, ref, value, sort=None):
         self.H[name] = z3.Store(self.comp(name, sort), ref, value)
